@@ -249,6 +249,9 @@ pub struct Program
     /// Scripts of the syscall-family callees: `callees[key][min(call, last)]`.
     pub callees: Vec<Vec<Vec<Op>>>,
     pub steps: Vec<Step>,
+    /// Starting triggers of world reactor `W1` (`add_world_reactor_with`).
+    #[serde(default)]
+    pub wr_starting: Vec<Trig>,
 }
 
 impl Program
